@@ -29,6 +29,8 @@ def build_hierarchy(spec):
     from odxtools.diaglayers.diaglayertype import DiagLayerType
     from odxtools.diaglayers.ecuvariant import EcuVariant
     from odxtools.diaglayers.ecuvariantraw import EcuVariantRaw
+    from odxtools.diaglayers.ecushareddata import EcuSharedData
+    from odxtools.diaglayers.ecushareddataraw import EcuSharedDataRaw
     from odxtools.diaglayers.functionalgroup import FunctionalGroup
     from odxtools.diaglayers.functionalgroupraw import FunctionalGroupRaw
     from odxtools.diaglayers.protocol import Protocol
@@ -40,30 +42,39 @@ def build_hierarchy(spec):
                   cptype=StandardizationLevel.STANDARD, dop_ref=OdxLinkRef.from_id(oid("cps.dop")),
                   physical_default_value=default)
 
-    simples, complexes = [], []
-    for s in spec["specs"]:
-        if "sub" in s:
-            subs = NamedItemList([simple(f"{n}", d) for n, d in s["sub"]])
-            for sp in subs:  # sub-parameters have their own ids
-                sp.odx_id = oid(f"cps.{s['name']}.{sp.short_name}")
-            complexes.append(mk(ComplexComparam, odx_id=oid("cps." + s["name"]), short_name=s["name"],
-                                param_class="UNIQUE_ID", cptype=StandardizationLevel.STANDARD,
-                                subparams=subs, physical_default_value=s.get("default")))
-        else:
-            simples.append(simple(s["name"], s.get("default")))
+    subsets_spec = {}
+    for sp_ in spec["specs"]:
+        subsets_spec.setdefault(sp_.get("subset", "cps"), []).append(sp_)
     from catalogue.build import Builder
-    b = Builder()
-    dop = b.dop({"dt": "A_UINT32", "bl": 32})
-    dop.odx_id = oid("cps.dop")
-    subset = mk(ComparamSubset, odx_id=oid("cps"), short_name="cps",
-                comparams=NamedItemList(simples), complex_comparams=NamedItemList(complexes),
-                data_object_props=NamedItemList([dop]), category="x")
+    subsets = []
+    for sname, entries in subsets_spec.items():
+        simples, complexes = [], []
+        for s in entries:
+            sid = s.get("id", f"{sname}.{s['name']}")
+            if "sub" in s:
+                subs = NamedItemList([simple(f"{n}", d) for n, d in s["sub"]])
+                for sp in subs:  # sub-parameters have their own ids
+                    sp.odx_id = oid(f"{sid}.{sp.short_name}")
+                complexes.append(mk(ComplexComparam, odx_id=oid(sid), short_name=s["name"],
+                                    param_class="UNIQUE_ID", cptype=StandardizationLevel.STANDARD,
+                                    subparams=subs, physical_default_value=s.get("default")))
+            else:
+                c = simple(s["name"], s.get("default"))
+                c.odx_id = oid(sid)
+                simples.append(c)
+        b = Builder()
+        dop = b.dop({"dt": "A_UINT32", "bl": 32})
+        dop.odx_id = oid("cps.dop") if sname == "cps" else oid(sname + ".dop")
+        subsets.append(mk(ComparamSubset, odx_id=oid(sname), short_name=sname,
+                          comparams=NamedItemList(simples), complex_comparams=NamedItemList(complexes),
+                          data_object_props=NamedItemList([dop]), category="x"))
 
     kinds = {
         "protocol": (ProtocolRaw, Protocol, DiagLayerType.PROTOCOL),
         "functional-group": (FunctionalGroupRaw, FunctionalGroup, DiagLayerType.FUNCTIONAL_GROUP),
         "base-variant": (BaseVariantRaw, BaseVariant, DiagLayerType.BASE_VARIANT),
         "ecu-variant": (EcuVariantRaw, EcuVariant, DiagLayerType.ECU_VARIANT),
+        "ecu-shared-data": (EcuSharedDataRaw, EcuSharedData, DiagLayerType.ECU_SHARED_DATA),
     }
     layers = {}
     instances = {}
@@ -72,14 +83,22 @@ def build_hierarchy(spec):
         rawcls, cls, vt = kinds[ls["type"]]
         cps = []
         for i, c in enumerate(ls.get("comparams", [])):
+            if c.get("xml"):
+                from xml.etree import ElementTree
+                from .build import FRAGS
+                inst = ComparamInstance.from_et(ElementTree.fromstring(c["xml"]), FRAGS)
+                cps.append(inst)
+                instances[c.get("tag", f"{ls['name']}#{i}")] = inst
+                continue
             inst = ComparamInstance(value=c["value"], description=None,
                                     protocol_snref=c.get("protocol"), prot_stack_snref=None,
-                                    spec_ref=OdxLinkRef.from_id(oid("cps." + c["cp"])))
+                                    spec_ref=OdxLinkRef.from_id(oid(c.get("spec_id", "cps." + c["cp"]))))
             cps.append(inst)
             instances[c.get("tag", f"{ls['name']}#{i}")] = inst
         prefs = [mk(ParentRef, layer_ref=OdxLinkRef.from_id(oid("layer." + p))) for p in ls["parents"]]
-        kw = dict(odx_id=oid("layer." + ls["name"]), short_name=ls["name"], variant_type=vt,
-                  comparam_refs=cps, parent_refs=prefs)
+        kw = dict(odx_id=oid("layer." + ls["name"]), short_name=ls["name"], variant_type=vt)
+        if ls["type"] != "ecu-shared-data":
+            kw.update(comparam_refs=cps, parent_refs=prefs)
         if ls["type"] == "protocol":
             kw["comparam_spec_ref"] = OdxLinkRef.from_id(oid("cpspec"))
         raw = mk(rawcls, **kw)
@@ -90,10 +109,11 @@ def build_hierarchy(spec):
              protocols=NamedItemList(by_kind["protocol"]),
              functional_groups=NamedItemList(by_kind["functional-group"]),
              base_variants=NamedItemList(by_kind["base-variant"]),
-             ecu_variants=NamedItemList(by_kind["ecu-variant"]))
+             ecu_variants=NamedItemList(by_kind["ecu-variant"]),
+             ecu_shared_datas=NamedItemList(by_kind["ecu-shared-data"]))
     db = Database()
     db._diag_layer_containers = NamedItemList([dlc])
-    db._comparam_subsets = NamedItemList([subset])
+    db._comparam_subsets = NamedItemList(subsets)
     db._comparam_specs = NamedItemList([mk(ComparamSpec, odx_id=oid("cpspec"), short_name="cpspec")])
     db.refresh()
     return {"db": db, "layers": layers, "instances": instances}
